@@ -20,9 +20,11 @@ func C02(run *core.Run) {
 		every = 3
 	}
 	// schedules from the specification: gossip before the momentum, restarts between deliveries
-	syncCheck(run, 4, 1, 30, every, syncOpts{gossip: true, restart: true})
+	syncCheck(run, 4, 1, 30, every, syncOpts{label: "pass1(gossip,restart) ", gossip: true, restart: true})
+	// a rival of the batch's first block (same account and height) is pooled before the batch arrives
+	syncCheck(run, 3, 1, 30, every/2, syncOpts{label: "pass2(rival block) ", rival: true})
 	// forks across an epoch end, followed by the reward update computed by the follower
-	syncCheckP(run, 4, 15, 2, every*2, syncOpts{warmViews: true}, 30)
+	syncCheckP(run, 4, 15, 2, every*2, syncOpts{label: "pass3(forks across an epoch end) ", warmViews: true}, 30)
 	c02Walk(run)
 	run.Finish()
 }
